@@ -267,6 +267,77 @@ def run_steps(c):
     return {'panel': {'ok': True}, 'steps': out, 'gen_calls': calls}
 
 
+def run_object(c):
+    """History kind 'object': ONE BIOGEME object built on panel data; afterwards the table changes
+    (Database.remove of flagged rows, or a direct drop of rows through database.data), and the same object is
+    asked for the log likelihood (scaled or not), its derivatives, a simulation -- in the order given."""
+    scale = c['scale']
+    if c['dtype'] == 'float':
+        col = np.array([i / scale for i in c['ids']], dtype=np.float64)
+    else:
+        col = np.array(c['ids'], dtype=np.int64)
+    df = pd.DataFrame({'x': np.array(c['x'], dtype=np.float64), 'pid': col,
+                       'y': np.array(c['y'], dtype=np.float64), 'rm': np.array(c['rm'], dtype=np.int64)})
+    d = Database('c09o', df)
+
+    def tagged(sample_size, number_of_draws):
+        return np.array([[1.0 + (32 * i + k) / 1024.0 for k in range(number_of_draws)]
+                         for i in range(sample_size)], dtype=np.float64).reshape(sample_size, number_of_draws)
+
+    d.set_random_number_generators({'TAGGED': (tagged, 'deterministic tagged draws')})
+    p = part(lambda: d.panel('pid'))
+    if not p['ok']:
+        return {'panel': p}
+    x, y = Variable('x'), Variable('y')
+    b = Beta('b', 1.0, None, None, 0)
+    xi = bioDraws('xi', 'TAGGED')
+    kind = c['kind']
+    if kind == 'bx':
+        f0, g = b * x, b * x * xi
+    else:
+        f0, g = x + b * y, x + b * y * xi
+    beta = c['beta']
+    state = {}
+
+    def build():
+        state['B'] = bio.BIOGEME(d, {'loglike': log(PanelLikelihoodTrajectory(f0)), 'plain': PanelLikelihoodTrajectory(f0),
+                                     'mc': MonteCarlo(PanelLikelihoodTrajectory(g))},
+                                 parameters=Parameters(), number_of_draws=c['R'], number_of_threads=c['threads'])
+        return True
+
+    res = {'panel': {'ok': True}, 'build': part(build), 'steps': []}
+    if not res['build']['ok']:
+        return res
+    B = state['B']
+
+    def do(a):
+        if a == 'remove':
+            d.remove(Variable('rm'))
+            return True
+        if a == 'droprows':
+            d.data = d.data[d.data['rm'] == 0]
+            return True
+        if a == 'll':
+            return ratio(B.calculate_likelihood([beta], scaled=False))
+        if a == 'lls':
+            return ratio(B.calculate_likelihood([beta], scaled=True))
+        if a in ('lld', 'llds'):
+            o = B.calculate_likelihood_and_derivatives([beta], scaled=(a == 'llds'), hessian=False, bhhh=False)
+            return ratio(o.function)
+        if a == 'sim':
+            out = B.simulate({'b': beta})
+            return {'index': [scaled_int(v, scale) for v in out.index.tolist()],
+                    'plain': [ratio(v) for v in out['plain'].tolist()], 'mc': [ratio(v) for v in out['mc'].tolist()],
+                    'loglike': [ratio(v) for v in out['loglike'].tolist()]}
+        raise ValueError(a)
+
+    for a in c['seq']:
+        r = part(lambda: do(a))
+        r['sample_size'] = part(lambda: int(d.get_sample_size()))
+        res['steps'].append(r)
+    return res
+
+
 class InjectedFault(Exception):
     """raised by the harness inside the k-th call of BIOGEME.optimize"""
 
@@ -361,7 +432,8 @@ def main():
     for c in cases:
         try:
             out.append(run_history(c) if c.get('history') == 'bootstrap' else
-                       run_steps(c) if c.get('history') == 'steps' else run_case(c))
+                       run_steps(c) if c.get('history') == 'steps' else
+                       run_object(c) if c.get('history') == 'object' else run_case(c))
         except Exception as e:  # noqa
             out.append({'runner': {'ok': False, 'exc': type(e).__name__, 'msg': str(e)[:300]}})
     print('@@' + json.dumps(out))
